@@ -328,8 +328,58 @@ def run(ck, facts, tier):
             ok, res = False, e
         ck.check(r6, key, ok, "float comparison is not the number comparison with the float promoted to new(f, []): %s" % (cel.vfmt(res)[:300] if not isinstance(res, Exception) else res),
                  where, sample="new(f, []) == number")
+    # ---------------- R03.8 numbers created on another number's variables
+    r8 = ck.rule("R03.8", "the `*_from` constructors tag a new leaf exactly as the plain constructor does and then re-express it on the other number's variable list: "
+                          "new_from = new(real, vars).to_new_vars(other.vars(), None); try_new_from = try_new(real, vars, dual[, dual2])?.to_new_vars(other.vars(), None) "
+                          "(so an empty `dual` means ones, as in try_new); Python's vars_from is try_new_from with its arguments as given", floor=6)
+    for num in (D1, D2):
+        nm = num.rsplit("::", 1)[-1]
+        hk = {num + "::new": lambda ev, vals, e: Sym("made", *[cel.vkey(v) for v in vals]), num + "::try_new": lambda ev, vals, e: Sym("trymade", *[cel.vkey(v) for v in vals]),
+              "<%s as dual::dual::Vars>::to_new_vars" % num: lambda ev, vals, e: Sym("aligned", *[cel.vkey(v) for v in vals])}
+        for ctor, inner in (("new_from", "made"), ("try_new_from", "trymade")):
+            r = facts.fn(num + "::" + ctor)
+            key = "%s::%s" % (nm, ctor)
+            if r is None:
+                ck.fail(r8, key, "constructor not found")
+                continue
+            where = "%s:%d" % (r["file"], r["line"])
+            names = [p_.get("name") for p_ in r["params"]]
+            try:
+                got = cel.strip_early(cel.Ev(facts, hooks=hk).apply_fn(r["fn"], [Sym("param", n_) for n_ in names], 0))
+                made = Sym(inner, *[cel.vkey(Sym("param", n_)) for n_ in names[1:]])
+                want = Sym("aligned", cel.vkey(made), cel.vkey(Sym("m", "vars", cel.vkey(Sym("param", names[0])), ())), cel.vkey(Sym("ctor", "None")))
+                if ctor == "try_new_from":
+                    want = Sym("ctor", "Ok", want)
+                ck.check(r8, key, cel.vkey(got) == cel.vkey(want), "%s is not the plain constructor followed by to_new_vars(other.vars(), None): %s" % (ctor, cel.vfmt(got)[:300]), where,
+                         sample="%s(%s).to_new_vars(other.vars(), None)" % ("new" if inner == "made" else "try_new", ", ".join(names[1:])))
+            except Unsupported as e:
+                ck.fail(r8, key, "rule could not be established (%s)" % e, where)
+        r = facts.fn("dual::dual_py::<impl %s>::vars_from" % num)
+        key = "%s::vars_from" % nm
+        if r is None:
+            ck.fail(r8, key, "wrapper not found")
+            continue
+        names = [p_.get("name") for p_ in r["params"]]
+        try:
+            got = cel.strip_early(cel.Ev(facts, hooks={num + "::try_new_from": lambda ev, vals, e: Sym("from", *[cel.vkey(v) for v in vals])}).apply_fn(r["fn"], [Sym("param", n_) for n_ in names], 0))
+            ck.check(r8, key, cel.vkey(got) == cel.vkey(Sym("from", *[cel.vkey(Sym("param", n_)) for n_ in names])), "vars_from is not try_new_from with its arguments as given: %s" % cel.vfmt(got)[:300],
+                     "%s:%d" % (r["file"], r["line"]), sample="try_new_from(%s)" % ", ".join(names))
+        except Unsupported as e:
+            ck.fail(r8, key, "rule could not be established (%s)" % e, "%s:%d" % (r["file"], r["line"]))
     from rules import deps
     deps.include_number_surface(ck, facts, tier)
+    # "operands whose derivative arrays match their variable lists" is what every alignment rule above assumes of its inputs: the constructors and the loaders are
+    # where that is established (R20.6, the dual-number cases)
+    from rules import c20
+    nd, tb = list(ck.not_decided), list(ck.trusted)
+    with ck.restrict({"R20.6"}):
+        c20.shape_rule(ck, facts, only_keys=r"^Dual2?::")
+    # a number that went through JSON or a pickle must come back with the same names against the same entries (C16 S16.2/S16.3/S16.7 for the two number types)
+    if not getattr(ck, "_dual_storage_done", False) and (ck._only is None or "S16.7" in ck._only):
+        ck._dual_storage_done = True
+        from rules import c16
+        c16.run(ck, facts, tier, only_types=r"^dual::dual::")
+    ck.not_decided[:], ck.trusted[:] = nd, tb
     ck.not_decided += ["IndexSet/Arc behaviour (hash collisions, pointer identity) is trusted", "to_combined_vars' result order of names (either operand first; the statement makes results independent of it)"]
     ck.trusted += ["lib/cel.py array-comprehension semantics", "rules/gather.py normal forms"]
 
